@@ -26,6 +26,9 @@ def plan(tier, seed):
                          {'name': 'always_recook', 'cfg': {'auto_reload': True}},
                          {'name': 'content_type_sticky', 'cfg': {'auto_reload': True}},
                          {'name': 'names_without_check', 'cfg': {'auto_reload': True}}])
+    tj = [{'two_files': True, 'n': 3 if quick else 4, 'o0': o0} for o0 in range(5)]
+    famT = dict(name='reload_histories_two_files', module=H, fn='history2', jobs=tj, timeout=900 if quick else 3000, vacuity=1,
+                mutants=[{'name': 'mtime_truthy', 'cfg': {'two_files': True, 'n': 3, 'o0': 1}}])
     rj = [{'ext': ext, 'dirs': d} for ext in ('.pt', None) for d in (1, 2, 3)]
     rj.append({'ext': '.pt', 'ext_arg': 'pt', 'dirs': 2})
     rj.append({'ext': '.pt', 'dirs': 1, 'str_path': True})
@@ -65,7 +68,7 @@ def plan(tier, seed):
                 'modification time symbolic (any integer >= 0 '
                 'that the file did not have before); after each use the result, and everything the instance holds (entry '
                 'points, content type, encoding), must be those of a freshly constructed template on the latest version, '
-                'and the number of compilations must equal the number of modifications observed. The 3 versions differ in '
+                'and the number of compilations must equal the number of modifications observed. Two files: a page that uses a macro template next to it through load: -- every sequence of 3 (thorough 4) operations from {write page / part (2 versions each: with/without slot and filler), touch page / part, render the page} followed by a render, symbolic mtimes: the output is that of a fresh page on the latest versions of both files and each file is recompiled exactly when its own mtime changed. The 3 versions differ in '
                 'body, macro set ({m1}, {m1,m2}, {}) and content type/encoding (xml declaration, none, meta). Loader: '
                 'TemplateLoader.load for 12 spec forms (dotted, dot-less, padded, nested, dot in a directory, other '
                 'extension, absolute, package-relative) x a second spec, 1-3 search directories, default extension set '
@@ -75,12 +78,12 @@ def plan(tier, seed):
                 'load: expressions (static and ${}-computed name) in a file template living in one of 3 directories, '
                 '1-3 search directories, all existence patterns. Outside: real file systems and clocks (modification '
                 'times are fresh by assumption: a change that keeps the old mtime is invisible by design), templates '
-                'inside packages/zip files (import_package_resource), more than one file per history, histories longer '
+                'inside packages/zip files (import_package_resource), more than two files per history, histories longer '
                 'than the bound.' % n),
         assumptions=['open()/os.path.getmtime()/os.path.exists() in chameleon.template / chameleon.loader answer from a '
                      'model (dict path -> bytes, mtime; symbolic existence matrix)',
                      'every modification gives the file a modification time it did not have before',
                      'the compile step is memoised per body (3 concrete documents); publishing entry points, forgetting '
                      'old ones and content-type detection are the real code'],
-        families=[famS, famH, famR, famZ, famL],
+        families=[famS, famH, famT, famR, famZ, famL],
     )
